@@ -406,7 +406,40 @@ def D17():
     return True
 
 
-ALL = [D1, D2, D3, D4, D5, D6, D7, D7b, D8, D9, D10, D11, D12, D13, D14, D15, D16, D17]
+def D18():
+    """with caching on, neighbors() / a traversal / a search whose filter callable cannot be hashed (a callable
+    dataclass) must answer what it answers with caching off (it raised TypeError: the arguments are the memo key)"""
+    from dataclasses import dataclass
+    from edgegraph.structure import Vertex, DirectedEdge
+    from edgegraph.traversal import helpers, breadthfirst, depthfirst
+
+    @dataclass
+    class Keep:
+        limit: int
+
+        def __call__(self, e, v):
+            return True
+    old = Vertex.NEIGHBOR_CACHING
+    try:
+        a, b = Vertex(), Vertex()
+        DirectedEdge(a, b)
+        f = Keep(3)
+        res = {}
+        for flag in (False, True, True):
+            Vertex.NEIGHBOR_CACHING = flag
+            try:
+                got = (helpers.neighbors(a, filterfunc=f), breadthfirst.bft(None, a, ff_via=f), depthfirst.dft_iterative(None, a, ff_via=f))
+            except TypeError:
+                return False
+            res.setdefault(flag, got)
+            if got != res[flag]:
+                return False
+        return res[False] == res[True] == ([b], [a, b], [a, b])
+    finally:
+        Vertex.NEIGHBOR_CACHING = old
+
+
+ALL = [D1, D2, D3, D4, D5, D6, D7, D7b, D8, D9, D10, D11, D12, D13, D14, D15, D16, D17, D18]
 
 if __name__ == "__main__":
     bad = 0
